@@ -372,7 +372,10 @@ func (g *gen2) e(t byte, d int) []byte {
 	case c.F32:
 		switch g.r.Intn(7) {
 		case 0, 1:
-			return c.Cat(g.e(t, d-1), g.e(t, d-1), []byte{0x92 + byte(g.r.Intn(7))})
+			if g.r.Intn(7) == 0 { // copysign: the sign must not come from a computed value (the sign of a NaN result is not determined)
+				return c.Cat(g.e(t, d-1), g.constOf(t), []byte{0x98})
+			}
+			return c.Cat(g.e(t, d-1), g.e(t, d-1), []byte{0x92 + byte(g.r.Intn(6))})
 		case 2:
 			return c.Cat(g.e(t, d-1), []byte{0x8b + byte(g.r.Intn(7))})
 		case 3:
@@ -394,7 +397,10 @@ func (g *gen2) e(t byte, d int) []byte {
 	case c.F64:
 		switch g.r.Intn(7) {
 		case 0, 1:
-			return c.Cat(g.e(t, d-1), g.e(t, d-1), []byte{0xa0 + byte(g.r.Intn(7))})
+			if g.r.Intn(7) == 0 {
+				return c.Cat(g.e(t, d-1), g.constOf(t), []byte{0xa6})
+			}
+			return c.Cat(g.e(t, d-1), g.e(t, d-1), []byte{0xa0 + byte(g.r.Intn(6))})
 		case 2:
 			return c.Cat(g.e(t, d-1), []byte{0x99 + byte(g.r.Intn(7))})
 		case 3:
@@ -436,7 +442,10 @@ func (g *gen2) e(t byte, d int) []byte {
 			}
 			return c.Cat(g.e(t, d-1), g.e(c.I64, d-1), simd(30, byte(g.r.Intn(2))))
 		case 7:
-			switch g.r.Intn(3) {
+			switch g.r.Intn(4) {
+			case 3: // v128.load{8,16,32,64}_lane: (address, vector) -> vector
+				k := g.r.Intn(4)
+				return c.Cat(g.addr(d), g.e(t, d-1), simd(84+uint32(k), 0, byte(g.r.Intn(8)), byte(g.r.Intn(16>>uint(k)))))
 			case 0:
 				return c.Cat(g.addr(d), simd(0), memarg(uint32(g.r.Intn(8))))
 			case 1:
@@ -668,8 +677,9 @@ func (g *gen2) stmt(d int) []byte {
 		case c.F64:
 			return c.Cat(g.addr(d), g.e(mt, d), []byte{0x39}, memarg(4096))
 		default:
-			if g.r.Bool() {
-				return c.Cat(g.addr(d), g.e(mt, d), simd(88, 0, byte(g.r.Intn(8)), byte(g.r.Intn(16)))) // v128.store8_lane
+			if g.r.Bool() { // v128.store{8,16,32,64}_lane: memarg, then a one-byte lane index
+				k := g.r.Intn(4)
+				return c.Cat(g.addr(d), g.e(mt, d), simd(88+uint32(k), 0, byte(g.r.Intn(8)), byte(g.r.Intn(16>>uint(k)))))
 			}
 			return c.Cat(g.addr(d), g.e(mt, d), simd(11), memarg(uint32(g.r.Intn(8))))
 		}
@@ -800,6 +810,27 @@ func (g *gen2) stmt(d int) []byte {
 		if g.r.Intn(8) == 0 {
 			return c.Cat(g.e(c.I32, d-1), []byte{0x04, 0x40, 0x00, 0x0b})
 		}
+	case 21, 22: // DEAD CODE: fully typed statements after an unconditional transfer (both engines must skip every
+		// immediate of every instruction they do not lower)
+		g.push(nil, false)
+		var dead []byte
+		switch g.r.Intn(3) {
+		case 0:
+			dead = c.Cat([]byte{0x0c, 0x00}, g.stmts(d-1, 1+g.r.Intn(2))) // br 0; dead
+		case 1: // a value-producing expression in dead code, dropped
+			dead = c.Cat([]byte{0x0c, 0x00}, g.e(t, d-1), []byte{0x1a}, g.stmts(d-1, 1))
+		default: // never taken: if (0) { return / unreachable; dead }
+			inner := c.Cat(g.values(g.fn.sig.R, d-1), []byte{0x0f})
+			if g.r.Bool() {
+				inner = []byte{0x00}
+			}
+			g.push(nil, false)
+			inner = c.Cat(inner, g.stmts(d-1, 1+g.r.Intn(2)))
+			g.pop()
+			dead = c.Cat(c.I32Const(0), []byte{0x04, 0x40}, inner, []byte{0x0b})
+		}
+		g.pop()
+		return c.Cat([]byte{0x02, 0x40}, dead, []byte{0x0b})
 	}
 	return []byte{0x01}
 }
@@ -941,6 +972,14 @@ func genModule2(r *c.Rng) []byte {
 		g.size = 0
 		d := 2 + r.Intn(2)
 		body := g.stmts(d, 2+r.Intn(4))
+		if i == nf-1 || r.Intn(4) == 0 { // a zoo of dead statements: never executed, but lowered (or skipped) by both engines
+			g.push(nil, false)
+			save := g.size
+			zoo := g.stmts(d, 6+r.Intn(6))
+			g.size = save
+			g.pop()
+			body = c.Cat(body, []byte{0x02, 0x40, 0x0c, 0x00}, zoo, []byte{0x0b})
+		}
 		if tc := g.tailCall(d); tc != nil {
 			body = append(body, tc...)
 		} else {
